@@ -61,6 +61,7 @@ void vf_sb_globals()
 {
   // the namespace-scope constants session.cpp reads on the encoded paths (no global constructors are run)
   new (const_cast<f8String*>(&Common_MsgType_SEQUENCE_RESET)) f8String("4");
+  new (const_cast<f8String*>(&Common_MsgType_REJECT)) f8String("3");
 }
 void vf_sb_conn_init(Connection *c, VSessB *s, Poco::Net::StreamSocket *sock)
 {
@@ -103,6 +104,9 @@ bool vf_sb_send_r(VSessB *s, Message *m, unsigned custom, bool noinc) { return s
 void vf_sb_vec_set(VBatch *b, Message **arr, unsigned j, unsigned cap)
 { b->v._M_impl._M_start = arr; b->v._M_impl._M_finish = arr + j; b->v._M_impl._M_end_of_storage = arr + cap; }
 unsigned vf_sb_send_batch(VSessB *s, const VBatch *b, bool destroy) { return unsigned(s->Session::send_batch(b->v, destroy)); }
+bool vf_sb_process(VSessB *s, const char *p, unsigned n) { const f8String from(p, n); return s->Session::process(from); }
+struct VDecodeError : f8Exception { VDecodeError() {} };     // a decoding failure of the kind Message::factory raises: an f8Exception subclass that does not
+void vf_sb_throw_invalid() { throw VDecodeError(); }         // force a logout; no message text (the library classes format 20+ character texts through iostreams)
 void vf_sb_update_persist(VSessB *s) { s->Session::update_persist_seqnums(); }
 void vf_sb_recover(VSessB *s) { s->Session::recover_seqnums(); }
 bool vf_sb_resend_request(VSessB *s, unsigned seqnum, const Message *m) { return s->Session::handle_resend_request(seqnum, m); }
